@@ -1045,10 +1045,13 @@ impl<'a, const N: usize> Props for __PrivateMacroProps<'a, N> {
     fn get<'v, K: ToStr>(&'v self, key: K) -> Option<Value<'v>> {
         let key = key.to_str();
 
+        // NOTE: Keys are sorted by their identifier at compile time, but may be
+        // renamed through `#[emit::key]`, so the array isn't necessarily sorted
+        // by the key we're looking up. The number of properties is expected to be small
         self.0
-            .binary_search_by(|(k, _)| k.cmp(&key))
-            .ok()
-            .and_then(|i| self.0[i].1.as_ref().map(|v| v.by_ref()))
+            .iter()
+            .find(|(k, _)| *k == key)
+            .and_then(|(_, v)| v.as_ref().map(|v| v.by_ref()))
     }
 
     fn is_unique(&self) -> bool {
